@@ -376,6 +376,18 @@ var Schemas = []Schema{
 	{"expr-star", func(g *G) *Change {
 		return &Change{Kind: "expr", Meta: mv("x", "expression"), Lines: lines("-*target(«x»)", "+repl(«x») + 1")}
 	}},
+	{"expr-method-recv", func(g *G) *Change {
+		return &Change{Kind: "expr", Meta: mv("x", "expression", "y", "expression"), Lines: lines("-«x».Get(«y»)", "+Lookup(«y», «x», «x»)")}
+	}},
+	{"expr-index-recv", func(g *G) *Change {
+		return &Change{Kind: "expr", Meta: mv("x", "expression"), Lines: lines("-«x»[0]", "+first(«x»)")}
+	}},
+	{"expr-binary-left", func(g *G) *Change {
+		return &Change{Kind: "expr", Meta: mv("x", "expression"), Lines: lines("-«x» + 1", "+inc(«x»)")}
+	}},
+	{"expr-field-chain", func(g *G) *Change {
+		return &Change{Kind: "expr", Meta: mv("x", "expression"), Lines: lines("-«x».Field.Sub", "+sub(«x»)")}
+	}},
 	// declaration patterns
 	{"decl-func-body", func(g *G) *Change {
 		return &Change{Kind: "decl", Meta: mv("f", "identifier"), Lines: lines("-func «f»() tgtResult {", "+func «f»(ctx Ctx) tgtResult {", "   ‹1:stmts›", " }")}
